@@ -10,12 +10,19 @@
     The recursion of the Rust code on the grandparent is structural recursion on explicit fuel. *)
 From Coq Require Import List NArith ZArith Bool.
 Import ListNotations.
-Require Import ITree.Model.Common ITree.Model.RBTree ITree.Model.MapModel.
+Require Import ITree.Model.Common ITree.Model.RBTree.
 Local Open Scope N_scope.
 
 Definition EMPTY : N := 4294967295.
 
-Record anode := { par : N; lft : N; rgt : N; red : bool; aent : ment }.
+(** The model is generic in the entity stored in a node ([ent]) and in the key function that the
+    descent of [insert_entity] compares ([key_of]): the map / set trees use [Z * Z] with [fst], the
+    expiring-key tree uses [kent] with [kk]. *)
+Section Arena.
+Variable ent : Type.
+Variable key_of : ent -> Z.
+
+Record anode := { par : N; lft : N; rgt : N; red : bool; aent : ent }.
 
 Record astate := { nodes : N -> anode; aroot : N }.
 
@@ -96,28 +103,28 @@ Fixpoint fix_insert (fuel: nat) (s: astate) (n_index p_index: N) : res astate :=
   end.
 
 (* insert_new(entity, p_index): [ni] is the slot handed out by the pool *)
-Definition insert_new (s: astate) (ni: N) (e: ment) (p_index: N) : astate :=
+Definition insert_new (s: astate) (ni: N) (e: ent) (p_index: N) : astate :=
   setn s ni {| par := p_index; lft := EMPTY; rgt := EMPTY; red := true; aent := e |}.
 
-Definition insert_as_left (fuel: nat) (s: astate) (ni: N) (e: ment) (p_index: N) : res astate :=
+Definition insert_as_left (fuel: nat) (s: astate) (ni: N) (e: ent) (p_index: N) : res astate :=
   let s1 := set_lft (insert_new s ni e p_index) p_index ni in
   if red (nodes s1 p_index) then fix_insert fuel s1 ni p_index else Ret s1.
 
-Definition insert_as_right (fuel: nat) (s: astate) (ni: N) (e: ment) (p_index: N) : res astate :=
+Definition insert_as_right (fuel: nat) (s: astate) (ni: N) (e: ent) (p_index: N) : res astate :=
   let s1 := set_rgt (insert_new s ni e p_index) p_index ni in
   if red (nodes s1 p_index) then fix_insert fuel s1 ni p_index else Ret s1.
 
 (* insert_root(entity) *)
-Definition insert_root (s: astate) (ni: N) (e: ment) : astate :=
+Definition insert_root (s: astate) (ni: N) (e: ent) : astate :=
   set_root (setn s ni {| par := EMPTY; lft := EMPTY; rgt := EMPTY; red := false; aent := e |}) ni.
 
 (* the descent loop of insert_entity *)
-Fixpoint insert_descend (fuel: nat) (s: astate) (index: N) (ni: N) (e: ment) : res astate :=
+Fixpoint insert_descend (fuel: nat) (s: astate) (index: N) (ni: N) (e: ent) : res astate :=
   match fuel with
   | O => Err ErrFuel
   | S f =>
     let node := nodes s index in
-    if Z.ltb (mkey e) (mkey (aent node)) then
+    if Z.ltb (key_of e) (key_of (aent node)) then
       if N.eqb (lft node) EMPTY then insert_as_left f s ni e index
       else insert_descend f s (lft node) ni e
     else
@@ -125,13 +132,53 @@ Fixpoint insert_descend (fuel: nat) (s: astate) (index: N) (ni: N) (e: ment) : r
       else insert_descend f s (rgt node) ni e
   end.
 
-Definition arena_insert (fuel: nat) (s: astate) (ni: N) (e: ment) : res astate :=
+Definition arena_insert (fuel: nat) (s: astate) (ni: N) (e: ent) : res astate :=
   if N.eqb (aroot s) EMPTY then Ret (insert_root s ni e)
   else insert_descend fuel s (aroot s) ni e.
 
 (** ** building an arena from a dump (used by the model runner) and reading it back *)
-Definition arena_of_list (l: list anode) (root: N) : astate :=
-  {| nodes := fun i => nth (N.to_nat i) l {| par := 0; lft := 0; rgt := 0; red := true; aent := (0%Z, 0%Z) |};
+Definition arena_of_list (dflt: ent) (l: list anode) (root: N) : astate :=
+  {| nodes := fun i => nth (N.to_nat i) l {| par := 0; lft := 0; rgt := 0; red := true; aent := dflt |};
      aroot := root |}.
 Definition arena_to_list (s: astate) (len: nat) : list anode :=
   map (fun i => nodes s (N.of_nat i)) (seq 0 len).
+
+(* an arena in which no slot has been written: every slot holds the default entity *)
+Definition empty_arena (dflt: ent) : astate :=
+  {| nodes := fun _ => {| par := 0; lft := 0; rgt := 0; red := true; aent := dflt |}; aroot := EMPTY |}.
+
+End Arena.
+
+Arguments Build_anode {ent} par lft rgt red aent.
+Arguments par {ent} a.
+Arguments lft {ent} a.
+Arguments rgt {ent} a.
+Arguments red {ent} a.
+Arguments aent {ent} a.
+Arguments Build_astate {ent} nodes aroot.
+Arguments nodes {ent} a _.
+Arguments aroot {ent} a.
+Arguments setn {ent} s i n.
+Arguments set_root {ent} s r.
+Arguments with_par {ent} n p.
+Arguments with_lft {ent} n l.
+Arguments with_rgt {ent} n r.
+Arguments with_red {ent} n c.
+Arguments set_par {ent} s i p.
+Arguments set_lft {ent} s i l.
+Arguments set_rgt {ent} s i r.
+Arguments set_red {ent} s i c.
+Arguments replace_parents_child {ent} s parent old_child new_child.
+Arguments rotate_right {ent} s index.
+Arguments rotate_left {ent} s index.
+Arguments get_uncle {ent} s p_index.
+Arguments fix_insert {ent} fuel s n_index p_index.
+Arguments insert_new {ent} s ni e p_index.
+Arguments insert_as_left {ent} fuel s ni e p_index.
+Arguments insert_as_right {ent} fuel s ni e p_index.
+Arguments insert_root {ent} s ni e.
+Arguments insert_descend {ent} key_of fuel s index ni e.
+Arguments arena_insert {ent} key_of fuel s ni e.
+Arguments arena_of_list {ent} dflt l root.
+Arguments arena_to_list {ent} s len.
+Arguments empty_arena {ent} dflt.
